@@ -141,11 +141,16 @@ func NewFBDNSDB(handlerConfig HandlerConfig, dbConfig DBConfig, cacheConfig Cach
 		return nil, err
 	}
 	go func() {
-		for s := range tdb.ReloadChan {
-			verifhook.Yield("reloadloop.recv")
-			err := tdb.Reload(s)
-			if err != nil {
-				glog.Errorf("Failed to reload: %v", err)
+		for {
+			select {
+			case <-tdb.done:
+				return
+			case s := <-tdb.ReloadChan:
+				verifhook.Yield("reloadloop.recv")
+				err := tdb.Reload(s)
+				if err != nil {
+					glog.Errorf("Failed to reload: %v", err)
+				}
 			}
 		}
 	}()
@@ -211,8 +216,21 @@ func (h *FBDNSDB) PeriodicDBReload(reloadInt int) {
 			return
 		case <-ticker.C:
 			verifhook.Yield("periodic.tick")
-			h.ReloadChan <- *NewPartialReloadSignal()
+			if !h.signalReload(*NewPartialReloadSignal()) {
+				return
+			}
 		}
+	}
+}
+
+// signalReload hands a signal to the reload loop. It returns false when the
+// DB was closed instead: nobody receives from ReloadChan anymore.
+func (h *FBDNSDB) signalReload(s ReloadSignal) bool {
+	select {
+	case h.ReloadChan <- s:
+		return true
+	case <-h.done:
+		return false
 	}
 }
 
@@ -229,7 +247,9 @@ func (h *FBDNSDB) watchDBAndReload(watcher *fsnotify.Watcher) (err error) {
 			return nil
 		case ev := <-watcher.Events:
 			if filterEvent(ev.Op) && path.Clean(ev.Name) == h.dbPath() {
-				h.ReloadChan <- *NewPartialReloadSignal()
+				if !h.signalReload(*NewPartialReloadSignal()) {
+					return nil
+				}
 			}
 		}
 	}
@@ -295,14 +315,18 @@ func (h *FBDNSDB) watchControlDirAndReload(watcher *fsnotify.Watcher) (err error
 			switch name {
 			case ControlFilePartialReload:
 				glog.Infof("Found patial reload trigger file")
-				h.ReloadChan <- *NewPartialReloadSignal()
+				if !h.signalReload(*NewPartialReloadSignal()) {
+					return nil
+				}
 			case ControlFileFullReload:
 				glog.Infof("Found full reload trigger file")
 				newPath, err := getNewDBPath(cp)
 				if err != nil {
 					return fmt.Errorf("getting new DB path: %w", err)
 				}
-				h.ReloadChan <- *NewFullReloadSignal(newPath)
+				if !h.signalReload(*NewFullReloadSignal(newPath)) {
+					return nil
+				}
 			default:
 				glog.Infof("Ignoring unknown file in control directory: %s", name)
 			}
@@ -414,8 +438,10 @@ func (h *FBDNSDB) acquireReader() (db.Reader, uint64, error) {
 	return reader, h.cacheGen, err
 }
 
-// Close closes the database. It also takes care of closing the channel used
-// for periodic reloading.
+// Close closes the database. It also stops the reload loop and the periodic
+// reloader through the done channel. ReloadChan itself is not closed: signal
+// senders (watchers, SIGHUP handler) may still be running and a send on a
+// closed channel panics.
 func (h *FBDNSDB) Close() {
 	verifhook.YieldLock("close.lock", &h.reloadMu)
 	h.reloadMu.Lock()
@@ -423,7 +449,6 @@ func (h *FBDNSDB) Close() {
 	glog.Infof("Closing DB")
 	close(h.done)
 	verifhook.Yield("close.done")
-	close(h.ReloadChan)
 	verifhook.Yield("close.chan")
 	h.dnsdb.Destroy()
 }
